@@ -305,13 +305,13 @@ def _stop_trace():
 
 
 # ----------------------------------------------------------------------------- float replay worker
-def _float_worker(case, model, conn):
+def _float_worker(case, model, conn, rand_seed=None):
     try:
         from .harness import FloatH, Skip
         import warnings
         import io
         import contextlib
-        h = FloatH(model, case.params)
+        h = FloatH(model, case.params, rand=(random.Random(rand_seed) if rand_seed is not None else None))
         buf = io.StringIO()
         err = None
         with warnings.catch_warnings(record=True) as wl:
@@ -332,10 +332,10 @@ def _float_worker(case, model, conn):
         os._exit(0)
 
 
-def float_replay(case, model, timeout=300):
+def float_replay(case, model, timeout=300, rand_seed=None):
     ctx = mp.get_context("fork")
     a, b = ctx.Pipe(duplex=False)
-    p = ctx.Process(target=_float_worker, args=(case, model, b))
+    p = ctx.Process(target=_float_worker, args=(case, model, b, rand_seed))
     p.start()
     b.close()
     out = None
@@ -552,9 +552,35 @@ def run_property(mod, tier, seed, only=None):
             else:
                 det = "; ".join(str(o.get("replay")) for o in group[:3])[:600]
                 harness_errors.append(f"{cid}: {name}: solver model did not reproduce on the float code ({det})")
-    # known findings expected but silent?  (reported, not an error: a fix makes them disappear)
-    for kf in known:
-        pass
+    # ---- cross-check: every case once more on the UNSHIMMED float code with random inputs (translator validation of
+    # the shims and of the harness); a float failure of a clause the solver discharged is a harness error, never a verdict
+    xc_ok = xc_skipped = 0
+    xc_samples = []
+    if os.environ.get("VERIF_NO_CROSSCHECK") != "1":
+        from concurrent.futures import ThreadPoolExecutor
+        todo = [(cid, R) for cid, R in results.items() if R["obls"] and getattr(R["case"], "crosscheck", True)]
+
+        def _xc(item):
+            cid, R = item
+            for attempt in range(3):
+                rep = float_replay(R["case"], {}, timeout=240, rand_seed=1000 * seed + 17 * attempt + 1)
+                if not rep.get("assumption_failed") and not rep.get("err"):
+                    return cid, R, rep
+            return cid, R, rep
+        with ThreadPoolExecutor(max_workers=min(NPROC, 8)) as ex:
+            for cid, R, rep in ex.map(_xc, todo):
+                if rep.get("assumption_failed") or (rep.get("err") and not rep.get("res")):
+                    xc_skipped += 1
+                    continue
+                proved = {(o["name"], o["idx"]) for o in R["obls"] if o["status"] in ("unsat", "trivial")}
+                refuted = {o["name"] for o in R["obls"] if o["status"] == "sat"}
+                bad = [x for x in rep["res"] if not x["ok"] and (x["name"], x["idx"]) in proved and x["name"] not in refuted]
+                if bad:
+                    harness_errors.append(f"{cid}: float cross-check on the unshimmed code contradicts a discharged clause: {bad[:2]}")
+                else:
+                    xc_ok += 1
+                    if len(xc_samples) < 2:
+                        xc_samples.append(dict(case=cid, float_clauses_checked=len(rep["res"]), all_ok=True))
     wall = time.time() - t_start
     meta = getattr(mod, "META", {})
     decided = n_unsat + n_triv + sum(1 for _ in known_hits)
@@ -576,7 +602,9 @@ def run_property(mod, tier, seed, only=None):
             vacuous_paths=vacuous, queries=queries, solver_time_s=round(solver_s, 1),
             functions_encoded=sorted(functions), bounds=meta.get("bounds", ""),
             sentinels_sat=sentinels_ok, models_replayed=replayed, models_reproduced=reproduced,
-            known_findings_seen=[k for k in known_hits], samples=samples or [dict(note="no solver-discharged sample recorded")],
+            known_findings_seen=[k for k in known_hits], samples=(samples + xc_samples) or [dict(note="no solver-discharged sample recorded")],
+            cases_crosschecked_on_float_code=xc_ok, crosscheck_skipped=xc_skipped,
+            traces_validated_against_impl=xc_ok, states=max(1, paths_total), transitions=max(1, n_obl),
             evaluations=n_obl, distinct_nontrivial=n_unsat,
             rule="one obligation = one scalar entry of one clause on one path of one case; non-trivial = needed a solver call (not syntactically identical)",
         ),
@@ -584,6 +612,11 @@ def run_property(mod, tier, seed, only=None):
         wall_s=round(wall, 1), violations=len(violations),
     )
     ev["coverage"]["obligations"] = ev["coverage"]["discharged"]
+    if hasattr(mod, "coverage_extra"):
+        try:
+            ev["coverage"].update(mod.coverage_extra(cases, results))
+        except Exception as e:  # noqa
+            ev["coverage"]["coverage_extra_error"] = str(e)
     if n_unsat + n_triv == 0:
         harness_errors.append("no obligation discharged")
     evdir = os.environ.get("VERIF_EVIDENCE_DIR", os.path.join(ROOT, "evidence"))
